@@ -92,6 +92,6 @@ def main(tier, seed):
     }
     assumptions = ['Python digit loop is the oracle for base conversion', 'base 1 and digits not below the base are outside the claim and never generated',
                    'NaN equality is not judged: NaN must read back as NaN']
-    minimum = {'evaluations': (n, 3000), 'bases': (len(bases), 35), 'rational:nan': (hist.get('rational:nan', 0), 30),
+    minimum = {'evaluations': (n, 3000), 'bases': (len(bases), 30), 'rational:nan': (hist.get('rational:nan', 0), 30),
                'negative fractions': (hist.get('rational:neg_frac', 0), 100)}
     return rep.finish(cov, assumptions, t0, minimum)
